@@ -33,7 +33,7 @@ def strategy(shard):
     return si.profile(n_min=shard["n"], n_max=shard["n"])
 
 
-def run_raire(case, earlier_search=False):
+def run_raire(case, earlier_search=False, agap=0):
     from shangrla.raire import sample_estimator
     from shangrla.raire.raire import compute_raire_assertions
     from shangrla.raire.raire_utils import Contest as RContest
@@ -47,6 +47,8 @@ def run_raire(case, earlier_search=False):
         # the same Contest object and CVR mapping were searched before with the other difficulty function
         other = sample_estimator.cp_estimate if case["asn"] == "bp_estimate" else sample_estimator.bp_estimate
         compute_raire_assertions(contest, cvrs, case["winner"], other, False)
+    if agap:
+        return compute_raire_assertions(contest, cvrs, case["winner"], f, False, agap=agap), f
     return compute_raire_assertions(contest, cvrs, case["winner"], f, False), f
 
 
@@ -69,7 +71,9 @@ def evaluate(case, out):
     real = [b for b in case["ballots"] if b is not None]
     out.cls(f"n={len(cands)}", case["asn"], "hint" if case["order_hint"] else "no-hint")
     try:
-        res, f = run_raire(case, earlier_search=(len(case["ballots"]) % 2 == 0))
+        res, f = run_raire(case, earlier_search=(len(case["ballots"]) % 2 == 0), agap=case.get("agap", 0))
+        if case.get("agap"):
+            out.cls("agap>0")
     except Exception as e:  # noqa
         out.lib_exception("compute_raire_assertions", e)
         return
